@@ -173,18 +173,19 @@ type pfile struct {
 }
 
 type vpeer struct {
-	in, out *VPipe            // in: client->server, out: server->client
-	Permute bool              // reply order chosen by the explorer
-	files   map[string]*pfile // by path
-	handles map[string]*pfile
-	hpath   map[string]string
-	dirs    map[string]int // directory handle -> READDIR calls answered
-	nextH   int
-	pending []preq
-	eof     bool
-	Bad     []string // protocol violations observed by the peer (framing, duplicate ids, ...)
-	Wire    []preq   // every request in wire order
-	outst   map[uint32]bool
+	in, out    *VPipe            // in: client->server, out: server->client
+	Permute    bool              // reply order chosen by the explorer
+	files      map[string]*pfile // by path
+	handles    map[string]*pfile
+	hpath      map[string]string
+	dirs       map[string]int // directory handle -> READDIR calls answered
+	dirBatches map[string]int // directory handle -> number of one-entry batches (directories named ...<digit>)
+	nextH      int
+	pending    []preq
+	eof        bool
+	Bad        []string // protocol violations observed by the peer (framing, duplicate ids, ...)
+	Wire       []preq   // every request in wire order
+	outst      map[uint32]bool
 
 	FailOff   map[uint64]string // READ/WRITE at these offsets are answered with failure (value = message)
 	ShortAt   map[uint64]int    // READ at this offset returns only that many bytes
@@ -374,6 +375,13 @@ func (p *vpeer) answer(r preq) []byte {
 		p.nextH++
 		h := fmt.Sprintf("d%d", p.nextH)
 		p.dirs[h] = 0
+		// a directory whose name ends in a digit k is listed in k batches of one entry each
+		if n := len(r.path); n > 0 && r.path[n-1] >= '1' && r.path[n-1] <= '9' {
+			if p.dirBatches == nil {
+				p.dirBatches = map[string]int{}
+			}
+			p.dirBatches[h] = int(r.path[n-1] - '0')
+		}
 		return respHandle(r.id, h)
 	case sshFxpReaddir:
 		n, ok := p.dirs[r.handle]
@@ -381,6 +389,12 @@ func (p *vpeer) answer(r preq) []byte {
 			return respStatus(r.id, sshFxFailure, "bad handle "+r.handle)
 		}
 		p.dirs[r.handle] = n + 1
+		if k, ok := p.dirBatches[r.handle]; ok {
+			if n < k {
+				return respName1(r.id, fmt.Sprintf("entry%d-of-%s", n, r.handle))
+			}
+			return respStatus(r.id, sshFxEOF, "EOF")
+		}
 		if n == 0 {
 			return respName1(r.id, "entry-of-"+r.handle)
 		}
